@@ -2094,7 +2094,9 @@ class _GroupElem(ABC):
         else:
             coordInElem_n = None
 
-        for e in elements_e:
+        # Elements are visited in increasing order: for a coordinate contained in several elements,
+        # coordInElem_n is the one of the last element, whatever the order of elements_e.
+        for e in np.unique(elements_e):
             # get element's node coordinates (x, y, z)
             coordElem = coord[connect[e]]
 
